@@ -133,7 +133,7 @@ type c03Op struct {
 	Joins  []pt.JoinPlayer `json:"joins,omitempty"`
 	Leaves []string        `json:"leaves,omitempty"`
 	ID     string          `json:"id,omitempty"`
-	Expect string          `json:"expect"` // ok | error | partial-known
+	Expect string          `json:"expect"` // ok | error
 	Got    string          `json:"got"`
 }
 
@@ -419,7 +419,8 @@ func c03Run(c *h.Ctx) {
 			case joinsOK:
 				op.Expect = "ok"
 			case len(leaves) > 0:
-				op.Expect = "partial-known" // recorded finding: the leave is applied although the join is refused
+				op.Expect = "error" // all-or-nothing: the leave must not be applied when the join is refused
+				c.Feature("update:leave-with-refused-join")
 			default:
 				op.Expect = "error"
 			}
@@ -484,25 +485,12 @@ func c03Run(c *h.Ctx) {
 		}
 		if err != nil {
 			if !bytes.Equal(before.table, after.table) || !bytes.Equal(before.sm, after.sm) {
-				if op.Expect == "partial-known" {
-					c.KnownOrViolate("C03/partial-effect/UpdateTablePlayers/leave-applied-join-refused", desc+": the refused batch update still removed the leaving players", witness())
-					c.Feature("known:update-partial")
-					// resynchronise the reference with what the engine did and go on
-					for _, id := range op.Leaves {
-						if seat, ok := model.seatOf[id]; ok {
-							vacated[seat] = true
-						}
-						delete(model.seatOf, id)
-						delete(model.isIn, id)
-					}
-				} else {
-					what := "table"
-					if bytes.Equal(before.table, after.table) {
-						what = "seat manager"
-					}
-					c.Violate("C03/refused-operation-changed-state/"+op.Kind, desc+": the "+what+" differs from before the call", map[string]interface{}{"witness": witness(), "table_before": json.RawMessage(before.table), "sm_before": json.RawMessage(before.sm)})
-					return
+				what := "table"
+				if bytes.Equal(before.table, after.table) {
+					what = "seat manager"
 				}
+				c.Violate("C03/refused-operation-changed-state/"+op.Kind, desc+": the "+what+" differs from before the call", map[string]interface{}{"witness": witness(), "table_before": json.RawMessage(before.table), "sm_before": json.RawMessage(before.sm)})
+				return
 			}
 		}
 		if sig, det := c03Consistent(s, model); sig != "" {
@@ -537,7 +525,7 @@ func init() {
 			return map[string]int{"quick": 1500, "thorough": 20000}[tier]
 		},
 		RequiredFeatures: func(string) []string {
-			return []string{"vacated-seat-taken-again", "leave-with-unknown-id", "known:update-partial", "op:reserve:error", "op:update:ok", "op:update:error", "status:table_game_standby", "status:table_pausing", "status:table_created", "create-with-duplicate-id"}
+			return []string{"vacated-seat-taken-again", "leave-with-unknown-id", "update:leave-with-refused-join", "op:reserve:error", "op:update:ok", "op:update:error", "status:table_game_standby", "status:table_pausing", "status:table_created", "create-with-duplicate-id"}
 		},
 		CaseTimeout: 120e9,
 		Run:         c03Run,
